@@ -36,8 +36,31 @@ open Cello.Own
 /-- a Table of probe elements: key payload ↦ (key token, value token) -/
 abbrev CTab := Cello.Table.Tab Nat KV
 
-/-- `Probe_Hash` of harness/h_own.c -/
-def probeHash (p : Nat) : Nat := (p % 16) * 37
+/-- first payload of the boundary-hash keys -/
+def bhBase : Nat := 1000
+
+/-- keys per boundary hash value (they collide with each other in every table size) -/
+def bhPer : Nat := 8
+
+/-- product of the table sizes 5 · 11 · 23 · 53 · 101 · 197 · 389 · 683 · 1259 of `Table_Primes`: a hash that is a multiple
+    of it has home slot 0 in every table of up to 1259 slots, one less has home slot `nslots - 1` in every one of them -/
+def bhL : Nat := 446221025714877545
+
+/-- the boundary values of a 64-bit hash the probe key type can take (`BH[]` of harness/h_own.c, same order): what `Int_Hash`
+    gives for the keys -1, 0, 1, -2, INT64_MIN, INT64_MAX, INT64_MIN+1, 2^32, 2^32-1, 2^32+1, -2^32, 2^33; what `Float_Hash`
+    (the bit pattern) gives for the quiet NaNs of both signs, +inf, 1.0 (and -0.0 = the pattern of INT64_MIN, the all-ones
+    NaN = the pattern of -1); and the residues 0 / nslots-1 / 1 modulo every table size at once. -/
+def bhTable : List Nat :=
+  [0xFFFFFFFFFFFFFFFF, 0, 1, 0xFFFFFFFFFFFFFFFE, 0x8000000000000000, 0x7FFFFFFFFFFFFFFF, 0x8000000000000001,
+   0x0000000100000000, 0x00000000FFFFFFFF, 0x0000000100000001, 0xFFFFFFFF00000000, 0x0000000200000000,
+   0x7FF8000000000000, 0xFFF8000000000000, 0x7FF0000000000000, 0x3FF0000000000000,
+   bhL, bhL - 1, bhL + 1, 41 * bhL, 41 * bhL - 1, 2 * bhL - 1]
+
+/-- `Probe_Hash` of harness/h_own.c: the payloads `bhBase + bhPer·b + r` (r < bhPer) hash to the `b`-th boundary value,
+    every other payload to `(p mod 16) · 37` (six-fold clusters in every table size) -/
+def probeHash (p : Nat) : Nat :=
+  if bhBase ≤ p ∧ p < bhBase + bhPer * bhTable.length then bhTable.getD ((p - bhBase) / bhPer) 0
+  else (p % 16) * 37
 
 /-- the stored pairs in slot order (what a white-box walk of the slot array sees) -/
 def slotKVs (t : CTab) : List KV := t.slots.toList.filterMap (fun o => o.map (·.val))
